@@ -147,6 +147,17 @@ class EnvProblem(Problem):
         self.lowerBoundOfFloatVariables, self.upperBoundOfFloatVariables = a, b
 
     def Calculate(self, point, functionValue):
+        if getattr(self, "fail_next", False):
+            # the objective fails once (a licence server that was down, a file not yet there): nothing is answered
+            self.fail_next = False
+            self.attempts.append(np.array(point.floatVariables, dtype=np.double, copy=True))
+            raise RuntimeError("objective not available")
+        if getattr(self, "fail_at", None) and not self.in_local and self.calls + 1 == self.fail_at:
+            # the k-th evaluation fails once; asked again it answers
+            self.fail_at = None
+            self.failed_once = True
+            self.attempts.append(np.array(point.floatVariables, dtype=np.double, copy=True))
+            raise RuntimeError("objective not available")
         if self.in_local:
             y = np.array(point.floatVariables, dtype=np.double, copy=True)
             v = self.local_fn(y)
@@ -248,7 +259,7 @@ class Snapshot:
 class SolverRun:
     def __init__(self, N=1, lower=None, upper=None, r=2.0, eps=0.01, itersLimit=20000, answer=None,
                  density=None, refine=False, listeners=(), problem=None, fresh_holder=False, other=None,
-                 int_bounds=False, constraints=0, probe=False, start_point=False, discrete=0, spell=None):
+                 int_bounds=False, constraints=0, probe=False, start_point=False, discrete=0, spell=None, prelude=None, fail_at=None):
         lower = [0.0] * N if lower is None else lower
         upper = [1.0] * N if upper is None else upper
         self.N = N
@@ -290,6 +301,39 @@ class SolverRun:
         if other and other[1] == "after":
             # constructed after this solver; its first iteration comes after this solver's first call
             self.other = self._make_other(other[0], iterate=False)
+        # calls a user may make before the first successful iteration, in an order no tutorial uses; whatever each of them
+        # does (answer, refuse, raise), the search that follows must be the search of a new solver:
+        #   results0  GetResults() before any iteration
+        #   refine0   DoLocalRefinement before any global iteration (its evaluations are answered apart from the script)
+        #   fail1     the very first objective evaluation raises; the call is simply made again
+        #   zero0     DoGlobalIteration(0)
+        self.prelude_out = []
+        for what in (prelude or ()):
+            try:
+                if what == "results0":
+                    with quiet():
+                        self.solver.GetResults()
+                elif what == "refine0":
+                    self.refine(3, lambda y: 5.0)
+                elif what == "zero0":
+                    with quiet():
+                        self.solver.DoGlobalIteration(0)
+                elif what == "fail1":
+                    self.problem.fail_next = True
+                    with quiet():
+                        self.solver.DoGlobalIteration(1)
+                else:
+                    raise KeyError(what)
+                self.prelude_out.append((what, None))
+            except KeyError:
+                raise
+            except BaseException as e:
+                self.prelude_out.append((what, type(e).__name__))
+            finally:
+                self.problem.fail_next = False
+        self.problem.fail_at = fail_at
+        if prelude and "refine0" in prelude:
+            self.problem.local_log = []
 
     @staticmethod
     def _make_other(N2, iterate):
@@ -307,9 +351,19 @@ class SolverRun:
                 self.other.DoGlobalIteration(1)
 
     def step(self, n=1):
+        """DoGlobalIteration(n); returns the number of trials made (less than n only when the injected one-off failure
+        of cfg `fail_at` ended the call early - the caller sees that moment and simply goes on)"""
+        before = self.problem.calls
+        made = n
         with quiet() as buf:
             try:
                 self.solver.DoGlobalIteration(n)
+            except RuntimeError as e:
+                if str(e) == "objective not available" and getattr(self.problem, "failed_once", False):
+                    self.problem.failed_once = False
+                    made = self.problem.calls - before
+                else:
+                    raise
             finally:
                 self.out += buf.getvalue()
         self._poke_other()
@@ -331,6 +385,7 @@ class SolverRun:
                     if arr is not None:
                         self.solver.evolvent.GetPreimages(arr)
                         self.solver.evolvent.GetInverseImage(arr)
+        return made
 
     def refine(self, n, local_fn):
         """DoLocalRefinement(n) with the objective answered by local_fn(y) (local evaluations are logged apart)"""
